@@ -26,7 +26,12 @@ import (
 var progress atomic.Int64
 var current atomic.Value // map[string]any
 
-const hangCPU = 20.0
+// both must hold for one case: >= hangWall seconds of wall time without progress AND >= hangCPU CPU-seconds burnt
+// meanwhile. CPU time alone is not enough on a loaded machine: the process's CPU clock also counts the garbage
+// collector's worker threads (a false "hang" was seen once in a thorough run next to 30 other jobs); a real infinite
+// loop satisfies both, just a little later.
+const hangCPU = 60.0
+const hangWall = 30.0
 
 func cpuSeconds() float64 {
 	var ru syscall.Rusage
@@ -40,21 +45,21 @@ func begin(class string, w map[string]any) {
 }
 
 func watchdog() {
-	last, lastCPU := progress.Load(), cpuSeconds()
+	last, lastCPU, lastWall := progress.Load(), cpuSeconds(), time.Now()
 	for {
 		time.Sleep(200 * time.Millisecond)
 		p := progress.Load()
 		if p != last {
-			last, lastCPU = p, cpuSeconds()
+			last, lastCPU, lastWall = p, cpuSeconds(), time.Now()
 			continue
 		}
-		if cpuSeconds()-lastCPU > hangCPU {
+		if cpuSeconds()-lastCPU > hangCPU && time.Since(lastWall).Seconds() > hangWall {
 			c, _ := current.Load().(map[string]any)
 			w, _ := c["witness"].(map[string]any)
 			cl, _ := c["class"].(string)
 			wj, _ := json.Marshal(w)
 			res.Violations = append(res.Violations, violation{Key: cl + "-hang:" + string(wj),
-				Summary: cl + fmt.Sprintf("-hang: one case used more than %.0f CPU-seconds (non-termination); remaining cases not explored", hangCPU), Witness: w})
+				Summary: cl + fmt.Sprintf("-hang: one case made no progress for %.0f s while burning more than %.0f CPU-seconds (non-termination); remaining cases not explored", hangWall, hangCPU), Witness: w})
 			res.Counters["hang"] = 1
 			res.Nontrivial = len(nontr)
 			json.NewEncoder(os.Stdout).Encode(res)
